@@ -183,8 +183,22 @@ def run_model(drv, cases, timeout=120):
     return rc, res, err
 
 
+def cost(prev, pk, en, choice):
+    """0 if `choice` is what a schedule without pre-emptions does at this decision, else 1.
+    The thread that ran last keeps running while it is enabled; if it parked at a voluntary yield
+    (clock_sleep_ms / between two calls) the next enabled thread in cyclic order takes over; if it
+    is blocked or has finished, every choice is free.  (= detsched's FAIR policy.)"""
+    if prev < 0 or prev not in en:
+        return 0
+    if pk in VOLUNTARY:
+        later = [t for t in en if t > prev]
+        dflt = min(later) if later else min(en)
+        return 0 if choice == dflt else 1
+    return 0 if choice == prev else 1
+
+
 def preemption_flags(decisions):
-    return [1 if (prev in en and chosen != prev and pk not in VOLUNTARY) else 0 for (prev, pk, chosen, en) in decisions]
+    return [cost(prev, pk, en, chosen) for (prev, pk, chosen, en) in decisions]
 
 
 class Stats:
@@ -264,11 +278,13 @@ def explore_scenario(ctx, exe, drv, a, b, bound, budget, stats, stop_on_problem=
                     for alt in en:
                         if alt == chosen:
                             continue
-                        cost = cum + (1 if (prev in en and alt != prev and pk not in VOLUNTARY) else 0)
-                        if cost <= bound:
+                        if cum + cost(prev, pk, en, alt) <= bound:
                             frontier.append(sched[:i] + [alt])
                 cum += flags[i]
-        if problems and stop_on_problem:
+        if stop_on_problem and any(p["kind"] in ("oracle", "crash", "model-crash") for p in problems):
+            exhaustive = False
+            break
+        if sum(1 for p in problems if p["kind"] == "diff") > 200:
             exhaustive = False
             break
     return problems, exhaustive, nruns
@@ -392,7 +408,7 @@ def run(ctx):
                 report(ctx, exe, drv, {"kind": "oracle", "a": a, "b": b, "sched": sched, "msg": r.oracle[0], "terminal": r.terminal}, bound)
         scen.insert(0, (a, b, budget // 2))
     for a, b, bud in scen:
-        if len(ctx.violations) + len(ctx.corr_broken) > 3:
+        if len(ctx.violations) > 3 or len(ctx.corr_broken) > 12:
             all_exhaustive = False
             break
         problems, exhaustive, nruns = explore_scenario(ctx, exe, drv, a, b, bound, bud, stats)
